@@ -156,10 +156,15 @@ def vols_arg(cvol, ints=False):
             return list(cvol["v"])
         vals = [_as_int(x) for x in cvol["v"]]
         if all(isinstance(x, int) for x in vals):
-            if len(vals) % 4 == 0 and all(0 <= x < 65536 for x in vals):
+            k = (len(vals) + sum(vals)) % 4
+            if k == 0 and all(0 <= x < 65536 for x in vals):
                 return np.array(vals, dtype=np.uint16)  # what reading a plate layout from a file may give
-            return np.array(vals, dtype=np.int64) if len(vals) % 2 == 0 else vals
-        if f32_exact(cvol["v"]) and len(vals) % 2 == 0:
+            if k == 1:
+                return np.array(vals, dtype=np.int64)
+            if k == 2 and all(abs(x) < 2**24 for x in vals):
+                return np.array(vals, dtype=np.float32)
+            return vals
+        if f32_exact(cvol["v"]):
             return np.array(cvol["v"], dtype=np.float32)  # the same numbers in single precision
         return vals
     flat = [x for row in cvol["v"] for x in row]
@@ -337,6 +342,9 @@ def resolve(world, op):
         if op.get("ints") and len(flat) % 2 == 0 and all(math.isfinite(v) for v in vols):
             # whole microlitres (rounded down: still within the limits), so that the volumes can travel as an integer array
             vols = [float(math.floor(v)) for v in vols]
+        elif op.get("ints") and not g and len(flat) % 2 == 1 and all(math.isfinite(v) and abs(v) < 1e30 for v in vols):
+            # the numbers a single-precision array holds (what is given IS the float32 value)
+            vols = [float(np.float32(v)) for v in vols]
         conc = {"op": kind, "lw": i, "wells": csel, "vols": vols_concrete(shape, vols, csel), "label": op.get("label"), "kw": dict(op.get("kw") or {}), "ints": bool(op.get("ints"))}
         if op.get("comps") and kind in ("add", "dispense"):
             conc["comps"] = op["comps"]
